@@ -883,9 +883,12 @@ class FunctionCall(LocalValue):
     def replace_use(self, old, new):
         super().replace_use(old, new)
         if old in self.arguments:
-            idx = self.arguments.index(old)
-            self.del_use(old)
-            self.arguments[idx] = new
+            # Replace all occurences, a value can be passed more than once:
+            for idx, argument in enumerate(self.arguments):
+                if argument is old:
+                    self.arguments[idx] = new
+            if old in self.uses:
+                self.del_use(old)
             self.add_use(new)
 
     def __str__(self):
@@ -914,9 +917,12 @@ class ProcedureCall(Instruction):
     def replace_use(self, old, new):
         super().replace_use(old, new)
         if old in self.arguments:
-            idx = self.arguments.index(old)
-            self.del_use(old)
-            self.arguments[idx] = new
+            # Replace all occurences, a value can be passed more than once:
+            for idx, argument in enumerate(self.arguments):
+                if argument is old:
+                    self.arguments[idx] = new
+            if old in self.uses:
+                self.del_use(old)
             self.add_use(new)
 
     def __str__(self):
